@@ -19,11 +19,15 @@ ASSUMPTIONS = [
 TRUSTED = ["FaultyStream (raises OSError at the j-th call on the command stream)", "patched clock tupimage.id_manager.datetime", "ocaml/drv_c09.ml"]
 
 
+EXC_OF = {"EIO": "OSError", "EPIPE": "BrokenPipeError", "ENOSPC": "OSError", "closed": "ValueError"}
+
+
 class FaultyStream:
-    def __init__(self, fail_at=None, die=False, probe=None):
+    def __init__(self, fail_at=None, die=False, probe=None, error="EIO"):
         self.calls = []  # ("w", bytes) | ("f",)
         self.fail_at = fail_at
         self.die = die
+        self.error = error
         self.probe = probe
         self.probe_log = []
         self._null = open(os.devnull, "wb")
@@ -34,6 +38,14 @@ class FaultyStream:
         if self.fail_at is not None and len(self.calls) == self.fail_at:
             if self.die:
                 os._exit(77)
+            # the ways a stream fails: an I/O error, the reader of a pipe gone (BrokenPipeError), the device full, a
+            # stream that was closed under the writer (ValueError: I/O operation on closed file)
+            if self.error == "EPIPE":
+                raise BrokenPipeError(32, "Broken pipe")
+            if self.error == "ENOSPC":
+                raise OSError(28, "No space left on device")
+            if self.error == "closed":
+                raise ValueError("I/O operation on closed file.")
             raise OSError(5, "injected I/O error")
         self.calls.append((kind, data))
 
@@ -137,7 +149,7 @@ def child_main(work, plan):
             pid = os.fork()
             if pid == 0:
                 try:
-                    s = FaultyStream(fail_at=j, die=True)
+                    s = FaultyStream(fail_at=j, die=True, error=case.get("error", "EIO"))
                     t = mk(s)
                     t.upload(imgs[case["image"]], force_upload=case["force"])
                 finally:
@@ -148,7 +160,7 @@ def child_main(work, plan):
             obs["probe"] = []
         else:
             probe_conn = sqlite3.connect(db)
-            s = FaultyStream(fail_at=j, probe=lambda: probe_conn.execute("SELECT upload_time FROM upload WHERE id=? AND terminal='term-X'", (inst.id,)).fetchone())
+            s = FaultyStream(fail_at=j, error=case.get("error", "EIO"), probe=lambda: probe_conn.execute("SELECT upload_time FROM upload WHERE id=? AND terminal='term-X'", (inst.id,)).fetchone())
             t = mk(s)
             try:
                 t.upload(imgs[case["image"]], force_upload=case["force"])
@@ -213,6 +225,9 @@ def run(ctx, model):
             js = sorted(set(js[:5] + js[-4:] + ctx.rng.sample(js, min(4, len(js)))))
         for j in js:
             plan.append(dict(case, fail_at=j, die=False, probe_only=False))
+            if j in (js[0], js[len(js) // 2], js[-1]) or not ctx.quick():
+                for err in ("EPIPE", "ENOSPC", "closed"):
+                    plan.append(dict(case, fail_at=j, die=False, probe_only=False, error=err))
             if (not ctx.quick() or j in (js[0], js[len(js) // 2], js[-1])):
                 plan.append(dict(case, fail_at=j, die=True, probe_only=False))
     # phase 2: all fault points (split into a few sandbox runs)
@@ -254,13 +269,14 @@ def run(ctx, model):
         j = case["fail_at"]
         wanted = case["force"] or obs.get("needs_before", True)
         label = {k: case[k] for k in ("method", "image", "max_command_size", "previous", "force", "fail_at", "die")}
+        label["error"] = case.get("error", "EIO")
         label["calls_in_full_transmission"] = len(ref)
         cov.add(label, nontrivial=j is not None and j > 0, klass=f"{case['method']}/calls={len(ref)}/prev={int(case['previous'])}/force={int(case['force'])}/" + ("nofault" if j is None else "die" if case["die"] else "raise"))
         # ---- correspondence
         if case["die"]:
             iout = "FAILED" if obs["exc"] == "died" else ("UPLOADED" if wanted else "SKIPPED")
         else:
-            iout = "FAILED" if obs["exc"] == "OSError" else ("SKIPPED" if (obs["exc"] is None and not obs["calls"]) else "UPLOADED" if obs["exc"] is None else "EXC-" + str(obs["exc"]))
+            iout = "FAILED" if obs["exc"] == EXC_OF[case.get("error", "EIO")] else ("SKIPPED" if (obs["exc"] is None and not obs["calls"]) else "UPLOADED" if obs["exc"] is None else "EXC-" + str(obs["exc"]))
         if iout != outcome or mtable != itable or (obs["calls"] is not None and len(obs["calls"]) != int(performed)):
             ctx.corr_breaks.append({"what": "outcome / completed calls / upload table differ from Model.UploadFlow.upload", "case": label,
                                     "impl": [iout, None if obs["calls"] is None else len(obs["calls"]), itable], "model": [outcome, performed, mtable]})
@@ -273,7 +289,7 @@ def run(ctx, model):
         fault_hit = (j is not None) and wanted and j < len(ref)
         vio = None
         if fault_hit:
-            if not case["die"] and obs["exc"] != "OSError":
+            if not case["die"] and obs["exc"] != EXC_OF[case.get("error", "EIO")]:
                 vio = ("error-not-propagated", f"the injected I/O error at call {j} did not reach the caller (got {obs['exc']})")
             elif any(row[0] == obs["id"] and row[1] == "term-X" for row in obs["table_after"]) or not obs["needs_after"]:
                 vio = ("recorded-despite-failed-transmission", f"after a transmission that failed at call {j} of {len(ref)} the database still records the image as uploaded to the terminal (needs_uploading={obs['needs_after']})")
